@@ -195,9 +195,9 @@ static void fiber_event_wake_waiters(fiber_manager_t* manager,
   }
 }
 
-static void fiber_event_wake_sleepers(fiber_manager_t* manager,
-                                      uint64_t trigger_count) {
-  fiber_spinlock_lock(&sleep_spinlock);
+// sleep_spinlock must be held
+static void fiber_event_wake_sleepers_locked(fiber_manager_t* manager,
+                                             uint64_t trigger_count) {
   timer_trigger_count += trigger_count;
 
   waiter_el_t* to_wake = NULL;
@@ -213,9 +213,28 @@ static void fiber_event_wake_sleepers(fiber_manager_t* manager,
       to_wake = next;
     } while (to_wake);
   }
+}
 
+#if defined(__linux__)
+// sleep_spinlock must be held. Expirations are read and added to
+// timer_trigger_count under the lock: if they were read first and added
+// later, a fiber going to sleep in between would compute its wake-up tick from
+// a count that misses them and wake up that many ticks early.
+static void fiber_event_read_timer_locked(fiber_manager_t* manager) {
+  uint64_t timer_count = 0;
+  if (fibershim_read(timer_fd, &timer_count, sizeof(timer_count)) ==
+      sizeof(timer_count)) {
+    fiber_event_wake_sleepers_locked(manager, timer_count);
+  }
+}
+#else
+static void fiber_event_wake_sleepers(fiber_manager_t* manager,
+                                      uint64_t trigger_count) {
+  fiber_spinlock_lock(&sleep_spinlock);
+  fiber_event_wake_sleepers_locked(manager, trigger_count);
   fiber_spinlock_unlock(&sleep_spinlock);
 }
+#endif
 
 static int fiber_poll_events_internal(uint32_t seconds, uint32_t useconds) {
 #if defined(__linux__)
@@ -239,14 +258,9 @@ static int fiber_poll_events_internal(uint32_t seconds, uint32_t useconds) {
   for (i = 0; i < count; ++i) {
     const int the_fd = events[i].data.fd;
     if (the_fd == timer_fd) {
-      uint64_t timer_count = 0;
-      const int ret =
-          fibershim_read(timer_fd, &timer_count, sizeof(timer_count));
-      if (ret != sizeof(timer_count)) {
-        assert(errno == EWOULDBLOCK || errno == EAGAIN);
-        continue;
-      }
-      fiber_event_wake_sleepers(manager, timer_count);
+      fiber_spinlock_lock(&sleep_spinlock);
+      fiber_event_read_timer_locked(manager);
+      fiber_spinlock_unlock(&sleep_spinlock);
     } else {
       fd_wait_info_t* const info = &wait_info[the_fd];
       fiber_spinlock_lock(&info->spinlock);
@@ -380,23 +394,18 @@ int fiber_sleep(uint32_t seconds, uint32_t useconds) {
     return FIBER_SUCCESS;
   }
 
-#if defined(__linux__)
-  {
-    // timer expirations are only read when a thread runs out of fibers. bring
-    // timer_trigger_count up to date first, otherwise ticks that piled up
-    // while every thread was busy are credited to this sleeper and it wakes
-    // early (or immediately)
-    uint64_t timer_count = 0;
-    if (fibershim_read(timer_fd, &timer_count, sizeof(timer_count)) ==
-        sizeof(timer_count)) {
-      fiber_event_wake_sleepers(fiber_manager_get(), timer_count);
-    }
-  }
-#endif
   const uint64_t sleep_ms = seconds * 1000 + useconds / 1000 + 1;  // ms
   waiter_el_t wake_info = {};
 
   fiber_spinlock_lock(&sleep_spinlock);
+
+#if defined(__linux__)
+  // timer expirations are only read when a thread runs out of fibers. bring
+  // timer_trigger_count up to date first, otherwise ticks that piled up while
+  // every thread was busy are credited to this sleeper and it wakes early (or
+  // immediately)
+  fiber_event_read_timer_locked(fiber_manager_get());
+#endif
 
   const uint64_t wake_time = timer_trigger_count + sleep_ms;
   wake_info.wake_time = wake_time;
